@@ -247,7 +247,7 @@ pub fn gen_program(r: &mut Rng, max_q: usize, with_nonunitary: bool) -> Program 
     let qubits = env.qubits();
     let regs: Vec<String> = env.qregs.iter().map(|r| r.0.clone()).collect();
     for _ in 0..r.range(2, 9) {
-        let k = r.below(if with_nonunitary && !env.cregs.is_empty() { 10 } else { 6 });
+        let k = r.below(if with_nonunitary && !env.cregs.is_empty() { 11 } else { 6 });
         match k {
             0..=3 => {
                 if let Some(c) = gen_builtin_call(r, &qubits, &regs, &[]) {
@@ -283,6 +283,25 @@ pub fn gen_program(r: &mut Rng, max_q: usize, with_nonunitary: bool) -> Program 
                 let v = r.below(1 << cs);
                 if let Some(c) = gen_builtin_call(r, &qubits, &regs, &[]) {
                     stmts.push(format!("if({cn}=={v}) {c}"));
+                }
+            }
+            10 => {
+                // guard chain: two `if`s on the same classical register with nothing but a bit-form measurement of a
+                // qubit in a known state between them (the second guard has to see the value the measurement left)
+                let (cn, cs) = r.pick(&env.cregs).clone();
+                let j = r.below(cs);
+                let qa = r.pick(&qubits).clone();
+                let vals = [0usize, 1 << j, r.below(1 << cs), (1usize << cs) - 1];
+                let (v0, v1) = (*r.pick(&vals[..]), *r.pick(&vals[..]));
+                stmts.push(format!("reset {qa};"));
+                if r.chance(2, 3) {
+                    stmts.push(format!("x {qa};"));
+                }
+                stmts.push(format!("if({cn}=={v0}) x {};", r.pick(&qubits)));
+                stmts.push(format!("measure {qa} -> {cn}[{j}];"));
+                stmts.push(format!("if({cn}=={v1}) x {};", r.pick(&qubits)));
+                if r.chance(1, 2) {
+                    stmts.push(format!("if({cn}=={}) x {};", *r.pick(&vals[..]), r.pick(&qubits)));
                 }
             }
             _ => {
